@@ -30,3 +30,9 @@ _glue_part("C07", "C07glue",
 # rule's notes, which must follow the server's history through undos and replacement moves (seed C07-6)
 if "C07" in PROPS and "C20glue" not in PROPS["C07"].setdefault("generators", ["C07"]):
     PROPS["C07"]["generators"].append("C20glue")
+
+# C16 anchors cmd/internal/playtak/taktician.go: the Taktician half of the glue generator runs under C16 as well
+if "C16" in PROPS and "C16glueT" not in PROPS["C16"].setdefault("generators", ["C16"]):
+    PROPS["C16"]["generators"].append("C16glueT")
+    PROPS["C16"]["rule"] = (PROPS["C16"].get("rule", "") + " || C16glueT: the real Taktician.GetMove on game records (ops `glue T ...`, described under C20/C07), "
+        "among them calls whose per-move time budget runs out while the searching player works (`x=1`): the returned move is the searcher's answer").strip(" |")
